@@ -196,3 +196,63 @@ func verifHarness_C20_grow_free_malloc_mempool() {
 	verifC20GrowFreeMalloc(New(8, 16), []int{1, 7, 8, 9, 15, 16, 17}, "MemPool(8,16)")
 	verifAssert(false, "witness")
 }
+
+// the same with the sizes as solver integers over whole ranges (not hand-picked
+// classes): the allocator's own comparisons split the ranges, the solver finds
+// the bucket boundaries and enumerates every feasible length.
+func verifC20GrowFreeMallocRanges(a Allocator, max1, max2, max3 int, name string) {
+	verifPoolMode(1)
+	s1 := verifInt("malloc", 0, max1)
+	s2 := verifInt("grow", 0, max2)
+	s3 := verifInt("malloc2", 0, max3)
+	p := a.Malloc(s1)
+	verifAssertD(len(*p) == s1, "malloc-length", name)
+	n1 := len(*p)
+	old := verifBytes("old", n1)
+	copy(*p, old)
+	n2 := verifConc(s2)
+	more := verifBytes("more", n2)
+	switch verifChoose("grow_op", 3) {
+	case 0:
+		p = a.Append(p, more...)
+	case 1:
+		p = a.AppendString(p, string(more))
+	default:
+		p = a.Realloc(p, n1+n2)
+		if len(*p) == n1+n2 {
+			copy((*p)[n1:], more)
+		}
+	}
+	want := append(append([]byte(nil), old...), more...)
+	verifAssertD(len(*p) == len(want) && verifEqBytes(*p, want), "contents-preserved", name)
+	keep := a.Malloc(3)
+	copy(*keep, []byte("abc"))
+	a.Free(p)
+	q := a.Malloc(s3)
+	verifAssertD(q != nil && len(*q) == s3, "malloc-length", name+":after-free")
+	if q != nil {
+		for i := range *q {
+			(*q)[i] = 0xAA
+		}
+		verifAssertD(!verifC20Overlap(*q, *keep), "live-buffers-disjoint", name)
+	}
+	verifAssertD(string(*keep) == "abc", "contents-preserved", name+":bystander")
+}
+
+func verifHarness_C20_size_ranges_mempool() {
+	verifBound("size_max", 18)
+	verifC20GrowFreeMallocRanges(New(8, 16), 18, 10, 18, "MemPool(8,16)")
+	verifAssert(false, "witness")
+}
+
+func verifHarness_C20_size_ranges_aligned_Q() {
+	verifBound("size_max", 34)
+	verifC20GrowFreeMallocRanges(NewAligned(), 34, 2, 34, "Aligned")
+	verifAssert(false, "witness")
+}
+
+func verifHarness_C20_size_ranges_aligned_T() {
+	verifBound("size_max", 70)
+	verifC20GrowFreeMallocRanges(NewAligned(), 70, 3, 70, "Aligned")
+	verifAssert(false, "witness")
+}
